@@ -100,7 +100,8 @@ def angles_for(ranks, rng):
 
 
 def perform(op, stack_in, outdir, variant, rng):
-    """Calls the tiltstack function named by op.  Returns (list of returned arrays, list of written paths)."""
+    """Calls the tiltstack function named by op.  Returns (list of returned arrays, list of written paths, and - for
+    calls that take index / angle arguments - (argument objects, their snapshots, a closure repeating the call))."""
     from cryocat import tiltstack
     kw = {}
     if op["io"] != "xyz" or variant % 2:
@@ -115,10 +116,11 @@ def perform(op, stack_in, outdir, variant, rng):
             kw["output_file_prefix"] = prefix
             outs = [prefix + "_even.mrc", prefix + "_odd.mrc"]
         even, odd = tiltstack.split_stack_even_odd(stack_in, **kw)
-        return [even, odd], outs
+        return [even, odd], outs, None
     if op["outf"]:
         outs = [os.path.join(outdir, "out.mrc" if variant % 5 else "out.rec")]
         kw["output_file"] = outs[0]
+    args = []          # caller-owned argument objects handed to the library (index / angle arrays and lists)
     if name == "sort":
         ang = angles_for(op["ranks"], rng)
         how = variant % 4
@@ -130,7 +132,11 @@ def perform(op, stack_in, outdir, variant, rng):
             tilts = os.path.join(outdir, "angles.tlt" if how == 2 else "angles.rawtlt")
             with open(tilts, "w") as fh:
                 fh.write("".join("%r\n" % a for a in ang))
+        args.append(tilts)
+        snaps = [np.array(a, copy=True) if not isinstance(a, str) else a for a in args]
         ret = tiltstack.sort_tilts_by_angle(stack_in, tilts, **kw)
+        again = lambda: tiltstack.sort_tilts_by_angle(stack_in, tilts, **kw)     # noqa: E731
+        return [ret], outs, (args, snaps, again)
     elif name == "remove":
         idx = [int(i) for i in op["idx"]]
         if variant % 3 == 1:
@@ -151,10 +157,13 @@ def perform(op, stack_in, outdir, variant, rng):
             # what "the requested indices" are for the call that is judged (seeded change C15a: in-place `-= 1`)
             kw0 = {k: v for k, v in kw.items() if k != "output_file"}
             tiltstack.remove_tilts(stack_in, arg, numbered_from_1=(op["base"] == 1), **kw0)
-        if op["base"] == 1 and variant % 2:
-            ret = tiltstack.remove_tilts(stack_in, arg, **kw)                 # numbered_from_1 defaults to True
-        else:
-            ret = tiltstack.remove_tilts(stack_in, arg, numbered_from_1=(op["base"] == 1), **kw)
+        if not (op["base"] == 1 and variant % 2):
+            kw["numbered_from_1"] = (op["base"] == 1)                         # (it defaults to True)
+        args.append(arg)
+        snaps = [np.array(a, copy=True) if not isinstance(a, str) else a for a in args]
+        ret = tiltstack.remove_tilts(stack_in, arg, **kw)
+        again = lambda: tiltstack.remove_tilts(stack_in, arg, **kw)              # noqa: E731
+        return [ret], outs, (args, snaps, again)
     elif name == "flip":
         axes = list(op["axes"])
         ret = tiltstack.flip_along_axes(stack_in, axes[0] if len(axes) == 1 and variant % 2 else axes, **kw)
@@ -168,7 +177,7 @@ def perform(op, stack_in, outdir, variant, rng):
         ret = tiltstack.bin(stack_in, op["f"], **kw)
     else:
         raise core.MachineryError("unknown op %r" % (op,))
-    return [ret], outs
+    return [ret], outs, None
 
 
 def sig_of(rec):
@@ -264,6 +273,7 @@ def run_chain(ctx, recs, variant, aseed, live=True):
     ab = affine(aseed, dtype, token_range(recs))
     rng = random.Random(aseed * 31 + variant)
     prev = None
+    held = []            # (call number, op, returned array object, copy taken when it was returned)
     root = fresh_dir(ctx, "ch")
     for k, rec in enumerate(recs):
         op = rec["op"]
@@ -290,9 +300,35 @@ def run_chain(ctx, recs, variant, aseed, live=True):
             ctx.fail("call_raises", "call %d %s: %s" % (k + 1, {x: op[x] for x in op if x not in ("ranks",)}, err), case,
                      sig_of(rec))
             break
-        rets, outs = result
+        rets, outs, extra = result
         if not compare(ctx, rec, rets, outs, outdir, ab, case, allowed):
             break
+        # results of earlier calls, inspected again after this call, must still be what they were
+        stale = [(j, o) for j, o, obj, snap in held if obj.shape != snap.shape or not np.array_equal(obj, snap)]
+        if stale:
+            ctx.fail(CLAUSE[stale[0][1]["name"]], "the array returned by call %d (%s) changed after call %d (%s)" % (
+                stale[0][0], stale[0][1]["name"], k + 1, op["name"]), case, dict(sig_of(rec), reinspected=True))
+            break
+        held += [(k + 1, op, r, r.copy()) for r in rets if isinstance(r, np.ndarray)]
+        if extra is not None:
+            args, snaps, again = extra
+            # the caller's own index / angle objects are untouched ...
+            changed = [a for a, sn in zip(args, snaps) if not isinstance(a, str) and not np.array_equal(np.array(a), sn)]
+            if changed:
+                ctx.fail(CLAUSE[op["name"]], "the call modified the caller's argument object: now %r" % (changed[0],), case,
+                         dict(sig_of(rec), argument_modified=True))
+                break
+            # ... and a second call with the very same objects gives the same result (no state between calls)
+            if (variant + k) % 2 == 0:
+                second, err = core.call_guarded(again)
+                if err is not None:
+                    ctx.fail("call_raises", "second call %d %s with the same argument objects: %s" % (k + 1, op["name"], err),
+                             case, dict(sig_of(rec), second_call=True))
+                    break
+                if not (isinstance(second, np.ndarray) and second.shape == rets[0].shape and np.array_equal(second, rets[0])):
+                    ctx.fail(CLAUSE[op["name"]], "a second call with the same argument objects returns a different result",
+                             case, dict(sig_of(rec), second_call=True))
+                    break
         prev = {"op": op, "rets": rets, "outs": outs}
     ctx.ran(case)
     shutil.rmtree(root, ignore_errors=True)
